@@ -28,6 +28,7 @@ LEAF_SA = {"b": (1, 1), "i": (4, 4), "l": (8, 8), "f": (4, 4), "d": (8, 8), "c":
            "s": (8, 8), "p": (8, 8)}
 STR_ALPHABET = "ABCDEFGHIJKLMNOPQRSTUVWXYZabcdefghijklmnopqrstuvwxyz0123456789_ "
 NOBJS = 8
+MANY_ARGS_MAX = {"quick": 20, "thorough": 24}      # largest arity of the many-args family
 
 
 def is_rec(t):
@@ -803,6 +804,38 @@ def generate(rng, tier):
         args = [rand_value(rng, t) for t in params]
         args[0][fields.index("s")] = None
         cases.append(_mk(cid(), "nil-string-in-record", rng, params, rand_ret(rng), "ffi_fail", args=args))
+    # 9. many arguments ("for any argument count and any mix of register- and memory-class arguments"): every arity
+    #    9..amany x a by-value record of every size class (<= 8, 9..16: register classes; 17..24, 25..40: memory class)
+    #    x its position (first / somewhere in the middle / last) — enumerated, not sampled; the other parameters are
+    #    random leaves with a small or a second big record now and then.  Plus: several big records in one call (first
+    #    AND last AND one in the middle), scalars only, and a record result
+    amany = MANY_ARGS_MAX[tier]
+    size_classes = [(1, 8), (9, 16), (17, 24), (25, 40)]
+
+    def filler():
+        r = rng.random()
+        if r < 0.12:
+            return record_of_size(rng, rng.randrange(1, 17))
+        if r < 0.18:
+            return record_of_size(rng, rng.randrange(17, 41))
+        return rand_leaf(rng)
+
+    for ar in range(9, amany + 1):
+        for (lo, hi) in size_classes:
+            for where in ("first", "middle", "last"):
+                for _ in range(scale):
+                    params = [filler() for _ in range(ar)]
+                    pos = {"first": 0, "last": ar - 1, "middle": rng.randrange(1, ar - 1)}[where]
+                    params[pos] = record_of_size(rng, rng.randrange(lo, hi + 1))
+                    cases.append(_mk(cid(), "many-args", rng, params, rand_ret(rng, p_rec=0.15),
+                                     note="record of %d..%d bytes %s of %d" % (lo, hi, where, ar)))
+        for _ in range(scale):
+            params = [filler() for _ in range(ar)]
+            for pos in (0, ar - 1, rng.randrange(1, ar - 1)):
+                params[pos] = record_of_size(rng, rng.randrange(17, 41))
+            cases.append(_mk(cid(), "many-args", rng, params, rand_ret(rng, p_rec=0.15), note="several big records"))
+            params = [rand_leaf(rng) for _ in range(ar)]
+            cases.append(_mk(cid(), "many-args", rng, params, rand_ret(rng, p_rec=0.3), note="scalars only"))
     # 8. inside ONE record argument: every position of a nil string field / nil nested record
     #    relative to non-nil nested records (before, after, between), at every depth <= 3
     for k, (t, v, where) in enumerate(nil_in_record_cases()):
